@@ -27,6 +27,26 @@ Proof.
   cbn [straight]. destruct (length code <=? pc); [eauto|]. destruct (is_jump_op (op_at code pc)); eauto.
 Qed.
 
+(** a prefix of the straight-line path satisfies the step-by-step check the correspondence evaluates *)
+Lemma prefix_follows code : forall n pc t, is_prefix t (straight code n pc) = true -> follows code t = true.
+Proof.
+  induction n as [|n IH]; intros pc t H.
+  - destruct t; [reflexivity|discriminate].
+  - destruct t as [|x t']; [reflexivity|]. cbn [straight] in H.
+    destruct (length code <=? pc) eqn:B.
+    { cbn [is_prefix] in H. apply andb_true_iff in H as [_ H]. destruct t'; [reflexivity|discriminate]. }
+    destruct (is_jump_op (op_at code pc)) eqn:J.
+    { cbn [is_prefix] in H. apply andb_true_iff in H as [_ H]. destruct t'; [reflexivity|discriminate]. }
+    cbn [is_prefix] in H. apply andb_true_iff in H as [Hx H]. apply Nat.eqb_eq in Hx. subst x.
+    destruct t' as [|q t'']; [reflexivity|].
+    pose proof (IH _ _ H) as F. cbn [follows]. cbn [follows] in F.
+    assert (Q : q = next_pc code pc).
+    { destruct n as [|n']; [discriminate|]. destruct (straight_head code n' (next_pc code pc)) as (tl & E). rewrite E in H.
+      cbn [is_prefix] in H. apply andb_true_iff in H as [Hq _]. now apply Nat.eqb_eq in Hq. }
+    apply Nat.leb_gt in B. rewrite J, Q, Nat.eqb_refl. replace (pc <? length code) with true by (symmetry; apply Nat.ltb_lt; exact B).
+    cbn [negb andb]. subst q. exact F.
+Qed.
+
 Lemma op_beyond code pc : length code <= pc -> op_at code pc = 0%N.
 Proof. intro H. unfold op_at. now apply nth_overflow. Qed.
 
@@ -74,6 +94,10 @@ Section Loop.
     abort_at k = true -> loop St code exec abort_at fuel k pc s = Some (t, r) ->
     is_prefix t (straight_from code pc) = true.
   Proof. intros Hab L. eapply cancelled_is_straight; [exact Hab| |exact L]. lia. Qed.
+
+  Theorem cancelled_frame_follows fuel k pc s t r :
+    abort_at k = true -> loop St code exec abort_at fuel k pc s = Some (t, r) -> follows code t = true.
+  Proof. intros Hab L. eapply prefix_follows. eapply cancelled_frame_walks_straight; eauto. Qed.
 
   Theorem cancelled_frame_stops_within_code_length fuel k pc s t r :
     abort_at k = true -> loop St code exec abort_at fuel k pc s = Some (t, r) ->
